@@ -8,6 +8,6 @@ wt=/tmp/seed-$id-$$
 git -C /repo worktree add -q --detach $wt HEAD || exit 2
 trap 'git -C /repo worktree remove --force '$wt' 2>/dev/null' EXIT
 ( cd $wt && git apply "$patch" ) || { echo "SEEDTEST $id: patch does not apply"; exit 2; }
-cd /verif && VERIF_REPO=$wt ./run.sh $id $tier > /var/tmp/seedtest-$id.out 2>&1; rc=$?
-grep -E "^(VIOLATION|INCONCLUSIVE|KNOWN-FINDING|SUMMARY)" /var/tmp/seedtest-$id.out | cut -c1-330 | head -8
+cd /verif && VERIF_REPO=$wt ./run.sh $id $tier > /var/tmp/seedtest-$id-$$.out 2>&1; rc=$?
+grep -E "^(VIOLATION|INCONCLUSIVE|KNOWN-FINDING|SUMMARY)" /var/tmp/seedtest-$id-$$.out | cut -c1-330 | head -8
 echo "SEEDTEST $id exit=$rc"
